@@ -771,6 +771,27 @@ func c16Grep(rc *RunCtx, t *simrt.Tape, dir string, p parCfg) {
 			k := t.Choose(n)
 			list[k], list[n-1] = list[n-1], list[k]
 		}
+		// identifiers hold no blank (a FASTA/FASTQ title ends the identifier at the first one),
+		// so blanks around an identifier of the list -- indentation, trailing blanks, the
+		// carriage return of a CRLF file -- can only be layout: the line means the identifier
+		if t.Choose(3) == 0 {
+			for i := range list {
+				switch t.Choose(5) {
+				case 0:
+					list[i] = "  " + list[i]
+					rc.Probe("id_list_indented_line")
+				case 1:
+					list[i] = "\t" + list[i] + " "
+					rc.Probe("id_list_indented_line")
+				case 2:
+					list[i] = list[i] + " \t"
+					rc.Probe("id_list_trailing_blanks")
+				case 3:
+					list[i] = list[i] + "\r"
+					rc.Probe("id_list_crlf")
+				}
+			}
+		}
 		text := strings.Join(list, "\n")
 		if t.Choose(2) == 1 {
 			text += "\n"
